@@ -1051,6 +1051,21 @@ def _oracle_grid(ctx, ag, ang, bg, method, pts, wts, degs, rotate, center, key):
             if sg.points.shape != S.shape or not np.all(np.abs(sg.points - S) <= 1e-11 * scale) or \
                     not np.all(np.abs(sg.weights - wref) <= 1e-12 * np.abs(wref)):
                 return fail(f"get_shell_grid({i}, r_sq={rsq}) is not the shell's slice relative to the centre")
+            # a repeated request after the caller has used the first one as its own object (moved it to the lab frame,
+            # rescaled its weights, in place and through the setters) must again be that shell
+            try:
+                sg.points[...] += 7.0
+                sg.weights[...] *= 3.0
+                sg.points = sg.points + 1.0
+                sg.weights = sg.weights * 2.0
+            except (ValueError, AttributeError):
+                pass
+            sg2 = g.get_shell_grid(i, r_sq=rsq)
+            if sg2.points.shape != S.shape or not np.all(np.abs(sg2.points - S) <= 1e-11 * scale) or \
+                    not np.all(np.abs(sg2.weights - wref) <= 1e-12 * np.abs(wref)):
+                return fail(f"get_shell_grid({i}, r_sq={rsq}) requested again after the first returned grid was modified by its owner is not the shell's slice relative to the centre")
+            if not (np.array_equal(g.points, P) and np.array_equal(g.weights, W)):
+                return fail(f"modifying the grid returned by get_shell_grid({i}, r_sq={rsq}) changed the atomic grid itself")
     # reproducible from the seed
     g2 = AtomGrid(_onedgrid(bg, pts, wts), degrees=list(degs), center=center, rotate=rotate, method=method)
     if not (np.array_equal(g2.points, P) and np.array_equal(g2.weights, W)):
